@@ -572,6 +572,8 @@ def param_mutations(fn: ast.FunctionDef, params: Optional[Set[str]] = None, nump
     rebound: Set[str] = set()
     views: Dict[str, str] = {}
     same: Dict[str, str] = {}        # local name bound to the parameter object itself (cc = mf_or_cc)
+    array_views: Set[str] = set()    # views made by an array call (asarray / reshape / ravel / .T): known to be arrays; a bare
+    #                                  attribute read (n = mol.nelectron) may be a number, `n -= 1` then rebinds a local
     out: List[tuple] = []
 
     def par(r: Optional[str]) -> Optional[str]:
@@ -617,6 +619,11 @@ def param_mutations(fn: ast.FunctionDef, params: Optional[Set[str]] = None, nump
                             views.pop(tg.id, None)
                         elif v is not None:
                             views[tg.id] = v
+                            if isinstance(st.value, ast.Call) or (isinstance(st.value, ast.Attribute) and st.value.attr == "T") \
+                                    or (isinstance(st.value, ast.Name) and st.value.id in array_views):
+                                array_views.add(tg.id)
+                            else:
+                                array_views.discard(tg.id)
                         else:
                             views.pop(tg.id, None)
                             if tg.id in params:
@@ -637,7 +644,7 @@ def param_mutations(fn: ast.FunctionDef, params: Optional[Set[str]] = None, nump
                     elif numpy_views and isinstance(tg.value, ast.Name) and tg.value.id in views:
                         out.append((st.lineno, ast.unparse(st)[:70] + " (a view of " + views[tg.value.id] + ")",
                                     views[tg.value.id]))
-                elif isinstance(tg, ast.Name) and numpy_views and tg.id in views:
+                elif isinstance(tg, ast.Name) and numpy_views and tg.id in views and tg.id in array_views:
                     out.append((st.lineno, ast.unparse(st)[:70] + f" ({tg.id} shares the storage of {views[tg.id]})", views[tg.id]))
                 elif isinstance(tg, ast.Attribute):
                     r = par(_root_name(tg))
